@@ -1190,7 +1190,7 @@ func Run(c *core.Ctx) {
 	if c.Race {
 		nExit = c.Pick(36, 360)
 		nIndep = c.Pick(12, 48)
-		nRand = c.Pick(480, 8000)
+		nRand = c.Pick(480, 20000)
 	}
 	for i := 0; i < nExit; i++ {
 		if c.Mine("exit", i) {
